@@ -28,7 +28,8 @@ Definition ret {A} (a : A) : M A := fun s => BOk a s.
 Definition bind {A B} (m : M A) (f : A -> M B) : M B :=
   fun s => match m s with BOk a s' => f a s' | BErr e => BErr e end.
 Definition fail {A} (e : berr) : M A := fun _ => BErr e.
-Notation "x <- m ;; f" := (bind m (fun x => f)) (at level 200, x name, m at level 100, f at level 200, right associativity).
+Notation "'LET' x <- m 'IN' f" := (bind m (fun x => f)) (at level 200, x name, m at level 100, f at level 200).
+Notation "'DO' m 'THEN' f" := (bind m (fun _ => f)) (at level 200, m at level 100, f at level 200).
 
 Fixpoint upd_nth {A} (i : nat) (f : A -> A) (l : list A) : list A :=
   match l, i with
@@ -62,7 +63,7 @@ Definition fresh_tmp : M nat :=
 
 (* bb.branch_pred = pred; link(bb, false_bb); link(bb, true_bb) *)
 Definition close_branch (bb : nat) (p : expr) (f t : nat) : M unit :=
-  _ <- modify bb (put_pred p) ;; _ <- link bb f ;; link bb t.
+  DO modify bb (put_pred p) THEN DO link bb f THEN link bb t.
 
 (** What [ExprBuilder] does to an expression without lifted constructs: fold [-c]. *)
 Definition neg_const (c : const) : option const :=
@@ -108,36 +109,44 @@ Definition residue (e : expr) : expr :=
 Definition tmp_assign (tmp : nat) (e : expr) : stmt := SAssign (TName (VT tmp)) e.
 
 Definition gen_branch (v : nat -> M (expr * nat)) (bb t f : nat) : M unit :=
-  r <- v bb ;; close_branch (snd r) (fst r) f t.
+  LET r <- v bb IN close_branch (snd r) (fst r) f t.
 
 Definition bx_unary (op : unop) (a : expr) (ra : nat -> M (expr * nat)) (bb : nat) : M (expr * nat) :=
   match op, a with
   | UNeg, EConst c =>
       match neg_const c with
       | Some c' => ret (EConst c', bb)
-      | None => r <- ra bb ;; ret (EUnary op (fst r), snd r)
+      | None => LET r <- ra bb IN ret (EUnary op (fst r), snd r)
       end
-  | _, _ => r <- ra bb ;; ret (EUnary op (fst r), snd r)
+  | _, _ => LET r <- ra bb IN ret (EUnary op (fst r), snd r)
   end.
 Definition bx_bin (op : binop) (ra rb : nat -> M (expr * nat)) (bb : nat) : M (expr * nat) :=
-  r1 <- ra bb ;; r2 <- rb (snd r1) ;; ret (EBin op (fst r1) (fst r2), snd r2).
+  LET r1 <- ra bb IN LET r2 <- rb (snd r1) IN ret (EBin op (fst r1) (fst r2), snd r2).
 Definition bx_cmp1 (op : cmpop) (rl rr : nat -> M (expr * nat)) (bb : nat) : M (expr * nat) :=
-  r1 <- rl bb ;; r2 <- rr (snd r1) ;; ret (ECmp (fst r1) (CLast op (fst r2)), snd r2).
+  LET r1 <- rl bb IN LET r2 <- rr (snd r1) IN ret (ECmp (fst r1) (CLast op (fst r2)), snd r2).
 Definition bx_walrus (x : nat) (ra : nat -> M (expr * nat)) (bb : nat) : M (expr * nat) :=
-  r <- ra bb ;; _ <- add_stmt (snd r) (SAssign (TName (VU x)) (fst r)) ;; ret (EName (VU x), snd r).
+  LET r <- ra bb IN DO add_stmt (snd r) (SAssign (TName (VU x)) (fst r)) THEN ret (EName (VU x), snd r).
 Definition bx_call (f : nat) (ras : nat -> M (exprs * nat)) (bb : nat) : M (expr * nat) :=
-  r <- ras bb ;; ret (ECall f (fst r), snd r).
+  LET r <- ras bb IN ret (ECall f (fst r), snd r).
 Definition bx_tuple (ras : nat -> M (exprs * nat)) (bb : nat) : M (expr * nat) :=
-  r <- ras bb ;; ret (ETuple (fst r), snd r).
-(* the tail of ExprBuilder.generic_visit for short-circuit expressions, after add_branch *)
+  LET r <- ras bb IN ret (ETuple (fst r), snd r).
+(* ExprBuilder.generic_visit for short-circuit expressions; [br] is the add_branch call *)
 Definition lift_bool (br : nat -> nat -> nat -> M unit) (bb : nat) : M (expr * nat) :=
-  t <- new_bb ;; f <- new_bb ;;
-  _ <- br bb t f ;;
-  tmp <- fresh_tmp ;;
-  _ <- add_stmt t (tmp_assign tmp (EConst (CBool true))) ;;
-  _ <- add_stmt f (tmp_assign tmp (EConst (CBool false))) ;;
-  m <- new_bb ;; _ <- link t m ;; _ <- link f m ;;
+  LET t <- new_bb IN LET f <- new_bb IN
+  DO br bb t f THEN
+  LET tmp <- fresh_tmp IN
+  DO add_stmt t (tmp_assign tmp (EConst (CBool true))) THEN
+  DO add_stmt f (tmp_assign tmp (EConst (CBool false))) THEN
+  LET m <- new_bb IN DO link t m THEN DO link f m THEN
   ret (EName (VT tmp), m).
+(* BranchBuilder.visit_BoolOp on two operands *)
+Definition br_bool (op : boolop) (ba bb_ : nat -> nat -> nat -> M unit) (bb t f : nat) : M unit :=
+  LET extra <- new_bb IN
+  DO match op with
+     | BoAnd => ba bb extra f
+     | BoOr => ba bb t extra
+     end THEN
+  bb_ extra t f.
 
 Fixpoint build_expr (e : expr) (bb : nat) {struct e} : M (expr * nat) :=
   match e with
@@ -149,27 +158,20 @@ Fixpoint build_expr (e : expr) (bb : nat) {struct e} : M (expr * nat) :=
       | CLast op r => bx_cmp1 op (build_expr l) (build_expr r) bb
       | CMore _ _ _ =>
           lift_bool (fun bb t f =>
-            extra <- new_bb ;;
-            r <- build_expr l bb ;;
+            LET extra <- new_bb IN
+            LET r <- build_expr l bb IN
             build_ctail (fst r) rest (snd r) (Some extra) t f) bb
       end
-  | EBool op a b =>
-      lift_bool (fun bb t f =>
-        extra <- new_bb ;;
-        match op with
-        | BoAnd => build_branch a bb extra f
-        | BoOr => build_branch a bb t extra
-        _ <- end ;;
-        build_branch b extra t f) bb
+  | EBool op a b => lift_bool (br_bool op (build_branch a) (build_branch b)) bb
   | EIf c a b =>
-      ib <- new_bb ;; eb <- new_bb ;;
-      _ <- build_branch c bb ib eb ;;
-      ra <- build_expr a ib ;;
-      rb <- build_expr b eb ;;
-      tmp <- fresh_tmp ;;
-      _ <- add_stmt (snd ra) (tmp_assign tmp (fst ra)) ;;
-      _ <- add_stmt (snd rb) (tmp_assign tmp (fst rb)) ;;
-      m <- new_bb ;; _ <- link (snd ra) m ;; _ <- link (snd rb) m ;;
+      LET ib <- new_bb IN LET eb <- new_bb IN
+      DO build_branch c bb ib eb THEN
+      LET ra <- build_expr a ib IN
+      LET rb <- build_expr b eb IN
+      LET tmp <- fresh_tmp IN
+      DO add_stmt (snd ra) (tmp_assign tmp (fst ra)) THEN
+      DO add_stmt (snd rb) (tmp_assign tmp (fst rb)) THEN
+      LET m <- new_bb IN DO link (snd ra) m THEN DO link (snd rb) m THEN
       ret (EName (VT tmp), m)
   | EWalrus x a => bx_walrus x (build_expr a) bb
   | ECall f args => bx_call f (build_exprs args) bb
@@ -179,8 +181,8 @@ with build_exprs (es : exprs) (bb : nat) {struct es} : M (exprs * nat) :=
   match es with
   | ENil => ret (ENil, bb)
   | ECons e r =>
-      r1 <- build_expr e bb ;;
-      r2 <- build_exprs r (snd r1) ;;
+      LET r1 <- build_expr e bb IN
+      LET r2 <- build_exprs r (snd r1) IN
       ret (ECons (fst r1) (fst r2), snd r2)
   end
 (* l' is the already built left operand; [extra] the block BranchBuilder.visit_BoolOp
@@ -189,20 +191,20 @@ with build_exprs (es : exprs) (bb : nat) {struct es} : M (exprs * nat) :=
 with build_ctail (l' : expr) (rest : ctail) (bb : nat) (extra : option nat) (t f : nat) {struct rest} : M unit :=
   match rest with
   | CLast op r =>
-      r2 <- build_expr r bb ;;
+      LET r2 <- build_expr r bb IN
       close_branch (snd r2) (ECmp l' (CLast op (fst r2))) f t
   | CMore op m rest' =>
       if lift_free m then
-        ex <- match extra with Some x => ret x | None => new_bb end ;;
-        r2 <- build_expr m bb ;;
-        _ <- close_branch (snd r2) (ECmp l' (CLast op (fst r2))) f ex ;;
+        LET ex <- match extra with Some x => ret x | None => new_bb end IN
+        LET r2 <- build_expr m bb IN
+        DO close_branch (snd r2) (ECmp l' (CLast op (fst r2))) f ex THEN
         build_ctail (fold_neg (residue m)) rest' ex None t f
       else fail ErrUnmodelled
   end
 with build_branch (e : expr) (bb t f : nat) {struct e} : M unit :=
   match e with
   | EConst (CBool b) =>
-      _ <- link bb (if b then t else f) ;; dummy_link bb (if b then f else t)
+      DO link bb (if b then t else f) THEN dummy_link bb (if b then f else t)
   | EConst _ | EName _ => gen_branch (fun bb => ret (e, bb)) bb t f
   | EUnary UNot a => build_branch a bb f t
   | EUnary op a => gen_branch (bx_unary op a (build_expr a)) bb t f
@@ -211,21 +213,15 @@ with build_branch (e : expr) (bb t f : nat) {struct e} : M unit :=
       match rest with
       | CLast op r => gen_branch (bx_cmp1 op (build_expr l) (build_expr r)) bb t f
       | CMore _ _ _ =>
-          extra <- new_bb ;;
-          r <- build_expr l bb ;;
+          LET extra <- new_bb IN
+          LET r <- build_expr l bb IN
           build_ctail (fst r) rest (snd r) (Some extra) t f
       end
-  | EBool op a b =>
-      extra <- new_bb ;;
-      match op with
-      | BoAnd => build_branch a bb extra f
-      | BoOr => build_branch a bb t extra
-      _ <- end ;;
-      build_branch b extra t f
+  | EBool op a b => br_bool op (build_branch a) (build_branch b) bb t f
   | EIf c a b =>
-      tb <- new_bb ;; eb <- new_bb ;;
-      _ <- build_branch c bb tb eb ;;
-      _ <- build_branch a tb t f ;;
+      LET tb <- new_bb IN LET eb <- new_bb IN
+      DO build_branch c bb tb eb THEN
+      DO build_branch a tb t f THEN
       build_branch b eb t f
   | EWalrus x a => gen_branch (bx_walrus x (build_expr a)) bb t f
   | ECall fn args => gen_branch (bx_call fn (build_exprs args)) bb t f
@@ -239,50 +235,50 @@ Definition is_tmp_name (e : expr) : bool :=
 
 Fixpoint visit_stmt (s : stmt) (bb : nat) (j : jumps) {struct s} : M (option nat) :=
   match s with
-  | SAssign t e => r <- build_expr e bb ;; _ <- add_stmt (snd r) (SAssign t (fst r)) ;; ret (Some (snd r))
-  | SAug x op e => r <- build_expr e bb ;; _ <- add_stmt (snd r) (SAug x op (fst r)) ;; ret (Some (snd r))
+  | SAssign t e => LET r <- build_expr e bb IN DO add_stmt (snd r) (SAssign t (fst r)) THEN ret (Some (snd r))
+  | SAug x op e => LET r <- build_expr e bb IN DO add_stmt (snd r) (SAug x op (fst r)) THEN ret (Some (snd r))
   | SExpr e =>
-      r <- build_expr e bb ;;
-      _ <- (if is_tmp_name (fst r) then ret tt else add_stmt (snd r) (SExpr (fst r))) ;;
+      LET r <- build_expr e bb IN
+      DO (if is_tmp_name (fst r) then ret tt else add_stmt (snd r) (SExpr (fst r))) THEN
       ret (Some (snd r))
   | SIf c body orelse =>
-      tb <- new_bb ;; eb <- new_bb ;;
-      _ <- build_branch c bb tb eb ;;
-      te <- visit_stmts body tb (Some tb) j ;;
-      ee <- visit_stmts orelse eb (Some eb) j ;;
+      LET tb <- new_bb IN LET eb <- new_bb IN
+      DO build_branch c bb tb eb THEN
+      LET te <- visit_stmts body tb (Some tb) j IN
+      LET ee <- visit_stmts orelse eb (Some eb) j IN
       match te, ee with
       | None, _ => ret ee
       | _, None => ret te
-      | Some a, Some b => m <- new_bb ;; _ <- link a m ;; _ <- link b m ;; ret (Some m)
+      | Some a, Some b => LET m <- new_bb IN DO link a m THEN DO link b m THEN ret (Some m)
       end
   | SWhile c body orelse =>
       match orelse with
       | SCons _ _ => fail ErrLoopElse
       | SNil =>
-        head <- new_bb ;; _ <- link bb head ;;
-        body_bb <- new_bb ;; tail <- new_bb ;;
-        _ <- build_branch c head body_bb tail ;;
-        r <- visit_stmts body body_bb (Some body_bb) (mkJ (j_ret j) (Some head) (Some tail)) ;;
-        _ <- match r with Some e => link e head | None => ret tt end ;;
+        LET head <- new_bb IN DO link bb head THEN
+        LET body_bb <- new_bb IN LET tail <- new_bb IN
+        DO build_branch c head body_bb tail THEN
+        LET r <- visit_stmts body body_bb (Some body_bb) (mkJ (j_ret j) (Some head) (Some tail)) IN
+        DO match r with Some e => link e head | None => ret tt end THEN
         ret (Some tail)
       end
-  _ <- | SBreak => match j_brk j with Some b => link bb b ;; ret None | None => fail ErrNoLoop end
-  _ <- | SContinue => match j_cont j with Some b => link bb b ;; ret None | None => fail ErrNoLoop end
+  | SBreak => match j_brk j with Some b => DO link bb b THEN ret None | None => fail ErrNoLoop end
+  | SContinue => match j_cont j with Some b => DO link bb b THEN ret None | None => fail ErrNoLoop end
   | SPass => ret (Some bb)
-  _ <- | SReturn None => add_stmt bb (SReturn None) ;; _ <- link bb (j_ret j) ;; ret None
+  | SReturn None => DO add_stmt bb (SReturn None) THEN DO link bb (j_ret j) THEN ret None
   | SReturn (Some e) =>
-      r <- build_expr e bb ;;
-      _ <- add_stmt (snd r) (SReturn (Some (fst r))) ;; _ <- link (snd r) (j_ret j) ;; ret None
+      LET r <- build_expr e bb IN
+      DO add_stmt (snd r) (SReturn (Some (fst r))) THEN DO link (snd r) (j_ret j) THEN ret None
   end
 with visit_stmts (ss : stmts) (prev : nat) (cur : option nat) (j : jumps) {struct ss} : M (option nat) :=
   match ss with
   | SNil => ret cur
   | SCons s r =>
-      bb <- match cur with
-            | Some b => ret b
-            | None => b <- new_bb ;; _ <- dummy_link prev b ;; ret b
-            end ;;
-      r1 <- visit_stmt s bb j ;;
+      LET bb <- match cur with
+                | Some b => ret b
+                | None => LET b <- new_bb IN DO dummy_link prev b THEN ret b
+                end IN
+      LET r1 <- visit_stmt s bb j IN
       visit_stmts r bb r1 j
   end.
 
